@@ -375,6 +375,17 @@ def run(M, c):
         elif path == "parse":
             eff_f, eff_r = 1, False
             s = "%04d-%02d-%02dT%02d:%02d:%02d.%06d" % F
+            form = (w // 2) % 8 if F[0] >= 1583 else (w // 2) % 3
+            if form:
+                # the same wall time written in the other ISO 8601 forms (space separator, basic format, ordinal date,
+                # week date): whichever form the text has, parse(tz=) builds the value from its wall-clock fields
+                d_ = dt.date(*F[:3])
+                iy, iw, iwd = d_.isocalendar()
+                ext_t, bas_t = "%02d:%02d:%02d.%06d" % F[3:], "%02d%02d%02d.%06d" % F[3:]
+                s = (None, "%04d-%02d-%02d " % F[:3] + ext_t, "%04d%02d%02dT" % F[:3] + bas_t, "%04d-%03dT" % (F[0], d_.timetuple().tm_yday) + ext_t,
+                     "%04d%03dT" % (F[0], d_.timetuple().tm_yday) + bas_t, "%04d-W%02d-%dT" % (iy, iw, iwd) + ext_t, "%04dW%02d%dT" % (iy, iw, iwd) + bas_t,
+                     "%04d-%02d-%02dT" % F[:3] + ext_t.replace(".", ","))[form]
+                M.count("parse_tz.other_iso_forms")
             ret = P.parse(s, tz=tz if w % 2 or not isinstance(zn, str) else zn)
         elif path == "local":
             eff_f, eff_r = 1, False
